@@ -106,7 +106,7 @@ class SendRule(S.SeqRule):
 
 
 class BlockingSend(S.SeqRule):
-    """xcm_send in blocking mode.  user: (accepted, waitfailed)"""
+    """xcm_send in blocking mode.  user: (accepted, waitfailed, finish called since acceptance)"""
     max_depth = 5
 
     def __init__(self, prog, root, rule):
@@ -115,13 +115,13 @@ class BlockingSend(S.SeqRule):
         self.seen = set()
 
     def user0(self, fn):
-        return (False, False)
+        return (False, False, False)
 
     def inline(self, fn, nid, callee):
         return callee.static and callee.file == self.root.file
 
     def on_call(self, fn, st, nid, callees, exts):
-        acc, wf = st.user
+        acc, wf, fin = st.user
         n = fn.nodes[nid]
         if acc and any(d.static and d.file == self.root.file and any(True for _ in d.calls("xcm_tp_socket_send")) for d in callees):
             k = "xcm_send:offered-again-after-accept"
@@ -130,19 +130,32 @@ class BlockingSend(S.SeqRule):
                 self.rule.violation(k, "blocking xcm_send hands the caller's buffer to the transport again (%s) on a path where the message had already been accepted: "
                                        "the receiver gets it twice although xcm_send reports one success" % n.get("callee"), loc=fn.loc(nid))
         if n.get("callee") == "xcm_tp_socket_send":
-            return [((True, wf), S.NONNEG), ((acc, wf), S.NEG)]
+            # accepted by the direct pass-through of non-blocking mode (in xcm_send itself): nothing to finish here
+            return [((True, wf, fn is self.root), S.NONNEG), ((acc, wf, fin), S.NEG)]
         if "poll" in exts:
-            return [((acc, wf), S.POS), ((acc, True), S.NONPOS)]
+            return [((acc, wf, fin), S.POS), ((acc, True, fin), S.NONPOS)]
         if n.get("callee") == "xcm_tp_socket_finish":
             # a new finish result supersedes an earlier wait failure only if the wait is retried
-            return [((acc, wf), S.ZERO), ((acc, wf), S.NEG)]
+            return [((acc, wf, True), S.ZERO), ((acc, wf, True), S.NEG)]
         return None
+
+    def blocking_path(self, st):
+        # acceptance through the blocking helpers (msg_bsend / bytestream_bsend), not the non-blocking pass-through
+        return bool(st.get("M:conn_s->is_blocking") in (S.POS, S.NONZERO)) or getattr(self, "_saw_bsend", False)
 
     def on_exit(self, fn, st, ret_nid, ret_cls, top):
         if not top:
             return
-        acc, wf = st.user
+        acc, wf, fin = st.user
         e = st.efact
+        if ret_cls != S.NEG and acc and not fin:
+            k = "xcm_send:success-without-finish"
+            if k not in self.seen:
+                self.seen.add(k)
+                self.rule.violation(k, "blocking xcm_send can report success for an accepted message without having finished the socket's outstanding work: part of "
+                                       "the frame may still be in the library's buffer, and an application that sends its last message and goes idle (or closes) never gets it out",
+                                    loc=self.root.loc(ret_nid) if ret_nid else None)
+
         eintr_excluded = e is not None and ((e[0] == "ne" and EINTR in e[1]) or (e[0] == "eq" and e[1] != EINTR))
         if ret_cls == S.NEG and acc and wf and eintr_excluded:
             self.rule.ok("xcm_send: after acceptance a failed wait is reported only when errno is not EINTR", "errno must-fact")
